@@ -69,7 +69,6 @@ Record pstate := mk_pstate {
   s_level : Z; s_lastbyte : Z }.
 
 Definition ps_mem (x : Z) (l : list Z) : bool := existsb (Z.eqb x) l.
-
 Fixpoint ps_assoc (x : Z) (l : list (Z * nat)) : option nat :=
   match l with
   | [] => None
@@ -524,7 +523,6 @@ Fixpoint ps_names_ok (n : node) : bool :=
 Definition ps_tree_ok (t : node) : bool :=
   wf_tree t && forallb ps_names_ok (Account.kids_of t).
 
-(* all records of the graph *)
 Definition ps_all_recs (g : pgraph) : list prec := concat (g_dirs g).
 
 (* ---- harness -------------------------------------------------------------------------------------------- *)
